@@ -265,7 +265,7 @@ def _p10(ctx):
             for d in deallocs:
                 srcs = x.calls_in(g.call_args(d)[0])
                 pub = {s.nid for s in x.loads_in(g.call_args(d)[0]) if s.on('ReadCursor.readers')}
-                is_meta = any(s[0] == 'fld' and s[2] == 'Reader.meta' for s in g.walk(g.call_args(d)[0]))
+                is_meta = any(s[0] == 'fld' and s[2] == 'Reader.meta' for s in g.deep_walk(g.call_args(d)[0]))
                 okd_ = (x.dom(fail, d) and not pub) or (is_meta and not pub)
                 ctx.add('W12', 'T-GUARD', fn, okd_, 'direct deallocation only of never-published objects (CAS-failure edge) or of the stream\'s private meta block' if okd_ else
                         'a published object is freed directly at %s instead of through the deferred path' % g.where(d), where=g.where(d), sub=sub + '|dealloc.bb%d' % g.nodes[d].bb)
@@ -284,7 +284,7 @@ def _p10(ctx):
                 for fnode in frees:
                     inst = g.nodes[fnode].call['inlined']
                     a0 = g.ev_local(inst, 2)
-                    if any(s[0] == 'fld' and s[2] == 'Reader.pos' for s in g.walk(a0)):
+                    if any(s[0] == 'fld' and s[2] == 'Reader.pos' for s in g.deep_walk(a0)):
                         posfree = x.dom(succ, fnode)
                 ctx.add('P10d', 'T-MUST', fn, posfree, 'the removed stream\'s position block is retired through the manager (writers may still scan it)' if posfree else
                         'the removed stream\'s ReaderPos is not retired through the deferred path', sub=sub + '|pos')
